@@ -44,14 +44,15 @@ def fire_and_collect(root, ev, channel):
     return sorted(calls)
 
 bad = []
-for seed in range(40):
+dyn = {}
+for seed in range(120):
     rnd = random.Random(seed)
     pool = [mk('c%d' % i, rnd.choice(['x', 'y', '*']), names=rnd.choice([('hello',), ('other',), ('hello', 'other'), ()]),
                hchannel=rnd.choice([None, None, 'x', '*'])) for i in range(5)]
     root = pool[0]
     pend = set()
     for step in range(16):
-        op = rnd.choice(['reg', 'reg', 'unreg', 'fire', 'fire', 'addh', 'tick'])
+        op = rnd.choice(['reg', 'reg', 'unreg', 'fire', 'fire', 'fire', 'addh', 'addh', 'rmh', 'tick'])
         c = rnd.choice(pool[1:])
         if op == 'reg':
             p = rnd.choice(pool)
@@ -64,9 +65,23 @@ for seed in range(40):
                 for _ in range(6): r.flush()
             pend = {x for x in pend if x.parent is not x}
         elif op == 'addh':
-            def h2(self, *a): calls.append(self.nm + '+')
-            h2.__name__ = 'h_' + c.nm + '+'
-            c.addHandler(handler('hello')(h2))
+            # dynamically added handlers: named, for several names, for all events by the name '*', catch-all (no names), with or
+            # without a channel of their own - added while the cache may be warm for the same event
+            tag = c.nm + '+%d' % step
+            def h2(self, *a, _t=tag): calls.append(_t)
+            h2.__name__ = 'h_' + tag
+            names = rnd.choice([('hello',), ('other',), ('*',), ('*',), (), ('hello', 'other')])
+            kw = rnd.choice([{}, {}, {'channel': 'x'}, {'channel': '*'}])
+            m = c.addHandler(handler(*names, **kw)(h2))
+            dyn.setdefault((seed, c.nm), []).append((m, names))
+        elif op == 'rmh':
+            hs = dyn.get((seed, c.nm))
+            if hs:
+                m, names = hs.pop(rnd.randrange(len(hs)))
+                if names and names != ('*',) and rnd.random() < 0.5:
+                    for nm_ in names: c.removeHandler(m, nm_)
+                else:
+                    c.removeHandler(m)
         else:
             r = rnd.choice(pool).root
             for _ in range(6): r.flush()
@@ -78,7 +93,7 @@ for seed in range(40):
                 bad.append('seed %d step %d: fire %s on %r at root %s: handlers called %r, expected %r' % (seed, step, evc.__name__, getattr(chan, 'nm', chan), r.nm, got, exp))
                 break
     if bad: break
-print('random register/unregister/addHandler/removeHandler histories (40 seeds) with a set-model oracle: %d violating' % len(bad))
+print('random register/unregister/addHandler/removeHandler histories (120 seeds; dynamic handlers named, multi-name, "*", catch-all, removed again) with a set-model oracle: %d violating' % len(bad))
 for b in bad[:4]: print(b)
 if bad: print('REPRODUCED')
 sys.exit(1 if bad else 0)
